@@ -64,3 +64,10 @@ Example C14_nonvacuous :
     dlookup (str "alice.user") d' =
       Some (File (str "hmac_sha256_scrypt:1700000000:7:AQIDBA==:CXB3AQIDBA==" ++ [10])).
 Proof. eexists. split; vm_compute; reflexivity. Qed.
+
+(* ---- the model's state space is the code's declared state ----
+   (theories/StateInst.v: package-level variables and struct fields listed by tools/facts on every
+   run; the models keep no state between operations other than these components) *)
+From Whawty Require StateInst.
+Theorem C14_store_state_inventory : StateInst.store_state_inventory.
+Proof. exact StateInst.store_state_inventory_holds. Qed.
